@@ -223,6 +223,38 @@ func (s *Sim) poll(chans []any) int {
 	return -1
 }
 
+// The generic functions below are instantiated (and race-instrumented) in the packages
+// that call them, so they touch no simulator state themselves: everything that does lives
+// in the non-generic helpers chanEnter / chanBlock / chanWoken.
+
+// chanEnter is the common prologue of Recv/Send: nil when no simulation runs.
+func chanEnter(site int32, what string) (*Sim, *Task) {
+	s := active.Load()
+	if s == nil {
+		return nil, nil
+	}
+	t := s.enter()
+	if t.sched {
+		panic("simrt." + what + " in scheduler context")
+	}
+	s.yield(site)
+	return s, t
+}
+
+func chanBlock(s *Sim, t *Task, site int32) <-chan struct{} {
+	t.siteID = site
+	t.site = ""
+	t.real = true
+	return s.shutdownCh
+}
+
+func chanWoken(s *Sim, t *Task, shutdown bool) {
+	s.unblock(t)
+	if shutdown {
+		runtime.Goexit()
+	}
+}
+
 // Recv replaces a blocking receive `<-ch`.
 func Recv[T any](site int32, ch <-chan T) T {
 	v, _ := Recv2(site, ch)
@@ -231,61 +263,44 @@ func Recv[T any](site int32, ch <-chan T) T {
 
 // Recv2 replaces `v, ok := <-ch`.
 func Recv2[T any](site int32, ch <-chan T) (T, bool) {
-	s := active.Load()
+	s, t := chanEnter(site, "Recv")
 	if s == nil {
 		v, ok := <-ch
 		return v, ok
 	}
-	t := s.enter()
-	if t.sched {
-		panic("simrt.Recv in scheduler context")
-	}
-	s.yield(site)
 	select {
 	case v, ok := <-ch:
 		return v, ok
 	default:
 	}
-	t.siteID = site
-	t.site = ""
-	t.real = true
+	sd := chanBlock(s, t, site)
 	select {
 	case v, ok := <-ch:
-		s.unblock(t)
+		chanWoken(s, t, false)
 		return v, ok
-	case <-s.shutdownCh:
-		s.unblock(t)
-		runtime.Goexit()
+	case <-sd:
+		chanWoken(s, t, true)
 	}
 	panic("unreachable")
 }
 
 // Send replaces a blocking send `ch <- v`.
 func Send[T any](site int32, ch chan<- T, v T) {
-	s := active.Load()
+	s, t := chanEnter(site, "Send")
 	if s == nil {
 		ch <- v
 		return
 	}
-	t := s.enter()
-	if t.sched {
-		panic("simrt.Send in scheduler context")
-	}
-	s.yield(site)
 	select {
 	case ch <- v:
 		return
 	default:
 	}
-	t.siteID = site
-	t.site = ""
-	t.real = true
+	sd := chanBlock(s, t, site)
 	select {
 	case ch <- v:
-		s.unblock(t)
-		return
-	case <-s.shutdownCh:
-		s.unblock(t)
-		runtime.Goexit()
+		chanWoken(s, t, false)
+	case <-sd:
+		chanWoken(s, t, true)
 	}
 }
